@@ -573,10 +573,16 @@ def mon_C08(case):
                         and d.startswith("message counter") and c["last"] + 1 == row["seq"]
                         and any(f.startswith("ctrl 500") for sid, f in ln.frames if sid == w[1])):
                     out.append((i, f"C08 [failed-save] the publish failed at MessageSave after the stored counter of {t} was advanced: {d}"))
-                elif (w[0] == "sub" and len(w) > 2 and w[2] == t and act is not None and "TopicShare" in ln.calls
-                        and d.startswith(f"private data of {act[0]}:") and pre is not None
-                        and pre.store.get(t, {}).get("subs", {}).get(act[0], {}).get("deleted")):
+                elif (w[0] in ("sub", "setsub") and len(w) > 2 and w[2] == t and act is not None and "TopicShare" in ln.calls
+                        and pre is not None and d.startswith("private data of ")
+                        and d.split(" ")[3].rstrip(":") == (_kv(w[3:]).get("user") or act[0] if w[0] == "setsub" else act[0])
+                        and pre.store.get(t, {}).get("subs", {}).get(d.split(" ")[3].rstrip(":"), {}).get("deleted")):
                     out.append((i, f"C08 [resub-private] re-subscribing to {t} keeps the stored private data of the soft-deleted row: {d}"))
+                elif (w[0] == "setdesc" and len(w) > 2 and w[2] == t and act is not None and attached and pre is not None
+                        and case.sess[w[1]]["lvl"] == "root" and act[0] not in pre.cache.get(t, {}).get("users", {})
+                        and d == f"subscriber {act[0]}: in memory yes, stored no"):
+                    out.append((i, f"C08 [phantom-sub] a root session attached to {t} sets private data as {act[0]} who is not subscribed: "
+                                   f"the topic caches a subscriber that the store does not have"))
                 elif (w[0] == "note" and len(w) > 3 and w[3] == "read" and act is not None and ln.calls == ["SubsUpdate"]
                         and d.startswith(f"received mark of {act[0]}:")):
                     out.append((i, f"C08 [read-raises-recv] a read note raised the received mark of {act[0]} on {t} in memory only: {d}"))
@@ -681,7 +687,155 @@ def mon_C09(case):
     return out
 
 
-MONITORS = {"C01": mon_C01, "C02": mon_C02, "C03": mon_C03, "C06": mon_C06, "C07": mon_C07, "C08": mon_C08, "C09": mon_C09}
+# ------------------------------------------------------------------------------------------------ C10 (group-topic part)
+
+def mon_C10(case):
+    out = []
+    bg = {s: v["bg"] for s, v in case.sess.items()}
+    for i, (o, ln) in enumerate(zip(case.ops, case.lines)):
+        w = o.split(" ")
+        if w[0] == "fg" and len(w) > 1:
+            bg[w[1]] = False
+        if w[0] == "reset":
+            bg = {s: v["bg"] for s, v in case.sess.items()}
+        if ln.plain is not None:
+            continue
+        pre = prev_state(case, i)
+        for t, c in ln.cache.items():
+            fgcount = {}
+            for sid, uid in c["sess"].items():
+                if not bg.get(sid, False):
+                    fgcount[uid] = fgcount.get(uid, 0) + 1
+            for u, p in c["users"].items():
+                if p["o"] < 0:
+                    out.append((i, f"C10 online count of {u} on {t} is negative ({p['o']})"))
+                want_o = fgcount.get(u, 0)
+                if p["o"] != want_o:
+                    pp = pre.cache.get(t, {}).get("users", {}).get(u) if pre else None
+                    pre_sess = pre.cache.get(t, {}).get("sess", {}) if pre else {}
+                    same = pp is not None and pp["o"] == p["o"] and pre_sess == c["sess"] and w[0] != "fg"
+                    if not same:
+                        out.append((i, f"C10 online count of {u} on {t} is {p['o']} with {want_o} attached foreground session(s) after `{w[0]}`"))
+        # presence frames: only to attached sessions of presencers, except permission-change and removal notices
+        for sid, f in ln.frames:
+            if not f.startswith("pres "):
+                continue
+            fw = f.split(" ")
+            t = fw[1]
+            k = frame_kv(f)
+            what = k.get("what", "")
+            c = ln.cache.get(t) or (pre.cache.get(t) if pre else None)
+            cpre = pre.cache.get(t) if pre else None
+            uid = None
+            for cc in (c, cpre):
+                if cc and sid in cc["sess"]:
+                    uid = cc["sess"][sid]
+                    break
+            if uid is None:
+                out.append((i, f"C10 presence `{what}` on {t} delivered to {sid} which is not attached to it"))
+                continue
+            modes = []
+            for cc in (c, cpre):
+                if cc and uid in cc["users"] and not cc["users"][uid]["deleted"]:
+                    modes.append(eff(cc["users"][uid]["want"], cc["users"][uid]["given"]))
+            if what not in ("acs", "gone") and modes and not any(has(m, "P") for m in modes):
+                out.append((i, f"C10 presence `{what}` on {t} delivered to {sid} of {uid} whose permissions {modes} lack presence"))
+            if not modes and what not in ("acs", "gone"):
+                out.append((i, f"C10 presence `{what}` on {t} delivered to {sid} of {uid} who is not subscribed"))
+    return out
+
+
+# ------------------------------------------------------------------------------------------------ C13 / C14 (sequential part)
+
+REQS = ("newgrp", "sub", "leave", "pub", "get", "setsub", "setdesc", "settags", "delmsg", "delsub", "deltopic")
+
+
+def replied(ln, sid):
+    return any(s == sid for s, f in ln.frames)
+
+
+def silent_why(case, i, w, ln):
+    """a request that got no reply at all: which recorded defect it is, or None"""
+    act = case.actor(w)
+    sess = case.sess.get(w[1], {})
+    pre = prev_state(case, i)
+    faulted = i > 0 and case.ops[i - 1].startswith("fail ")
+    if faulted and ln.calls and len(ln.calls) == int(case.ops[i - 1].split(" ")[1]) and w[0] in ("sub", "setsub"):
+        return f"[silent-store-failure:{w[0]}] store call {len(ln.calls)} ({ln.calls[-1]}) failed and the handler returned without a reply"
+    if w[0] == "leave" and sess.get("lvl") == "root" and act is not None and len(w) > 2 and pre is not None:
+        c = pre.cache.get(w[2])
+        if c is not None and w[1] in c["sess"] and c["sess"][w[1]] != act[0]:
+            return f"[root-leave-obo] a root session attached for {c['sess'][w[1]]} sent {{leave}} as {act[0]}: no branch answers"
+    return None
+
+
+def mon_C13(case):
+    out = []
+    for i, (o, ln) in enumerate(zip(case.ops, case.lines)):
+        w = o.split(" ")
+        if ln.plain in ("panic", "crash"):
+            out.append((i, f"C13 the server panicked while processing `{o}`"))
+            continue
+        if ln.plain is not None or w[0] not in REQS:
+            continue
+        if not replied(ln, w[1]):
+            k = silent_why(case, i, w, ln)
+            out.append((i, f"C13 {k}" if k else f"C13 request `{w[0]}` from {w[1]} was not answered"))
+            continue
+        # malformed / unknown / unauthorised requests are answered with an error code
+        if len(w) > 2 and re.match(r"^T\d+$", w[2]):
+            pre = prev_state(case, i)
+            known = pre is not None and (w[2] in pre.store or w[2] in pre.cache)
+            if not known and w[0] not in ("newgrp",):
+                codes = [int(f.split(" ")[1]) for s, f in ln.frames if s == w[1] and f.startswith("ctrl ")]
+                if codes and min(codes) < 300:
+                    out.append((i, f"C13 `{w[0]}` addressed to the non-existent topic {w[2]} answered {min(codes)}"))
+    return out
+
+
+def mon_C14(case):
+    out = []
+    for i, (o, ln) in enumerate(zip(case.ops, case.lines)):
+        w = o.split(" ")
+        if ln.plain is not None:
+            continue
+        # a session lists a topic iff the topic lists the session
+        for sid, tops in ln.sess.items():
+            for t in tops:
+                c = ln.cache.get(t)
+                if c is None or sid not in c["sess"]:
+                    out.append((i, f"C14 after `{w[0]}` session {sid} lists {t} but the topic does not list the session"))
+        for t, c in ln.cache.items():
+            for sid in c["sess"]:
+                if t not in ln.sess.get(sid, set()):
+                    out.append((i, f"C14 after `{w[0]}` topic {t} lists session {sid} but the session does not list the topic"))
+        if w[0] in ("sub", "leave", "deltopic", "delsub", "newgrp") and not replied(ln, w[1]):
+            k = silent_why(case, i, w, ln)
+            out.append((i, f"C14 {k}" if k else f"C14 request `{w[0]}` from {w[1]} was not answered"))
+        # a deleted topic: everybody detached, later requests refused
+        if w[0] == "deltopic" and len(w) > 2:
+            pre = prev_state(case, i)
+            t = w[2]
+            if pre is not None and t in pre.store and (t not in ln.store or ln.store[t]["state"] != 0):
+                for sid, tops in ln.sess.items():
+                    if t in tops:
+                        out.append((i, f"C14 {t} was deleted but session {sid} is still attached"))
+                if pre.cache.get(t):
+                    for sid in pre.cache[t]["sess"]:
+                        if sid != w[1] and not any(s == sid and f.startswith("ctrl 205") or (s == sid and f.startswith("pres") and "gone" in f)
+                                                   for s, f in ln.frames):
+                            pass        # told through the 'me' topic, which this stream does not model
+        if w[0] in ("sub", "pub", "get", "note") and len(w) > 2 and i > 0:
+            pre = prev_state(case, i)
+            t = w[2]
+            if pre is not None and t in pre.store and pre.store[t]["state"] != 0 and w[0] == "sub":
+                if any(s == w[1] and f.startswith("ctrl 2") for s, f in ln.frames):
+                    out.append((i, f"C14 subscribe to the deleted topic {t} was accepted"))
+    return out
+
+
+MONITORS = {"C01": mon_C01, "C02": mon_C02, "C03": mon_C03, "C06": mon_C06, "C07": mon_C07, "C08": mon_C08, "C09": mon_C09,
+            "C10": mon_C10, "C13": mon_C13, "C14": mon_C14}
 
 
 def run_monitor(pid, ops, outs):
